@@ -63,7 +63,7 @@ func genSMCase(t *rapid.T) SMCase {
 func TestC02(t *testing.T) {
 	rapid.Check(t, func(rt *rapid.T) {
 		c := genSMCase(rt)
-		st, err := pbt.Safe(runSM, c)
+		st, err := pbt.SafeJ("C02", "sm", runSM, c)
 		if st == nil {
 			st = &smStats{}
 		}
